@@ -7,6 +7,7 @@ from fractions import Fraction
 import numpy as np
 
 LEVEL = "proof"
+EXTRA_PROPS = ["QuantemModel.Props.C15Ext"]   # growth 6: batch loop of bilinear_kde (batch-size independence, unit total weight)
 MANIFEST_ENTRY = {
     "category": "proof",
     "text": "Lean 4 theorems over an executable model of drift.py's initial geometry (np.linspace, initial knot placement, "
@@ -708,6 +709,25 @@ def gen_rehist(rng, i):
             "sub": rng.next() & 0xFFFFFFFF}
 
 
+def _self():
+    import sys
+    return sys.modules[__name__]
+
+
+def run_round6(ctx, drv):
+    """FIXED blocks of growth round 6 (independent of VERIF_SEED and of the case budget): see c15_round6.py"""
+    from props import c15_round6 as r6
+    for case in r6.edge_cases():
+        run_case(ctx, drv, case)
+    for case in r6.fixedpoint_cases():
+        run_case(ctx, drv, case)
+    for case in r6.reuse_cases():
+        run_case(ctx, drv, case)
+    for case in r6.splatb_cases():
+        run_case(ctx, drv, case)
+    run_case(ctx, drv, {"stream": "batches"})
+
+
 def run_case(ctx, drv, case):
     s = case["stream"]
     if s == "coords":
@@ -721,6 +741,15 @@ def run_case(ctx, drv, case):
     elif s == "session":
         from props import c15_session
         c15_session.case_session(ctx, drv, _drv(), case)
+    elif s == "reuse":
+        from props import c15_round6
+        c15_round6.case_reuse(ctx, _self(), case)
+    elif s == "splatb":
+        from props import c15_round6
+        c15_round6.case_splatb(ctx, drv, _self(), case)
+    elif s == "batches":
+        from props import c15_round6
+        c15_round6.case_batches(ctx, drv, _self())
     else:
         raise ValueError(s)
 
@@ -746,6 +775,7 @@ def run(ctx):
         rng = ctx.rng.fork(5)
         for i in range(ctx.n(120, 1200)):
             run_case(ctx, drv, c15_session.gen_session(rng.fork(i), i))
+        run_round6(ctx, drv)
     finally:
         drv.close()
 
